@@ -83,6 +83,9 @@ func (c *Case) req(mode string) *Req {
 		mode = "full"
 	}
 	id := nextID()
+	if c.Stream == "corpus" || c.Stream == "replay" {
+		id = id*3 + 1 // Go-stub providers for host-function imports (see child.go provide)
+	}
 	return &Req{ID: id, Feat: c.Feat, Hex: c.Hex, Mode: mode, CallMs: 2000, BudgetMs: 6000, MaxCalls: 16, Rot: id, ASMiB: c.ASMiB}
 }
 
@@ -111,20 +114,28 @@ func errClass(s string) string {
 
 func panicSig(p string) string {
 	msg := normalize(p)
-	fn := ""
+	fn, loc := "", ""
 	if i := strings.Index(p, "\n"); i >= 0 {
-		frames := strings.Split(p[i+1:], " | ")
-		for _, f := range frames {
-			if strings.Contains(f, "wazero/") && strings.Contains(f, "(") && !strings.Contains(f, ".go:") {
+		for _, f := range strings.Split(p[i+1:], " | ") {
+			if strings.Contains(f, ".go:") {
+				if loc == "" && fn != "" {
+					loc = f[strings.LastIndex(f, "/")+1:]
+					if j := strings.Index(loc, " "); j > 0 {
+						loc = loc[:j]
+					}
+					break
+				}
+				continue
+			}
+			if fn == "" {
 				fn = f[strings.LastIndex(f, "/")+1:]
-				if j := strings.Index(fn, "("); j > 0 {
+				if j := strings.LastIndex(fn, "("); j > 0 {
 					fn = fn[:j]
 				}
-				break
 			}
 		}
 	}
-	return strings.ReplaceAll(msg, " ", "-") + "@" + fn
+	return strings.ReplaceAll(msg, " ", "-") + "@" + fn + "@" + loc
 }
 
 func crashClass(stderr string) string {
@@ -152,7 +163,7 @@ func cause(c *Case) string {
 		if f.Kind == "locals-n" {
 			return "F3b:locals-declared-without-a-cap"
 		}
-		return "F3a:prealloc-" + f.Kind
+		return "F3a:decoder-reserves-declared-count:" + f.Kind
 	}
 	if w.MaxLocal > localsPolicy {
 		return "F3b:locals-declared-without-a-cap"
@@ -175,7 +186,7 @@ func judge(c *Case, o Outcome, alone bool) string {
 		if o.Crash == "timeout" {
 			sig := "C03:no-answer-within-" + aloneDeadline.String()
 			if cs := cause(c); cs != "" {
-				sig = cs + ":hang"
+				sig = cs
 			}
 			violate(c, "impl-violation", sig, fmt.Sprintf("compiling/exercising a %d-byte input did not finish within %s when run alone", n, aloneDeadline), "an answer", o.Stderr)
 			return "hang"
@@ -183,7 +194,7 @@ func judge(c *Case, o Outcome, alone bool) string {
 		cls := crashClass(o.Stderr)
 		sig := "C03:child-crash:" + cls
 		if cs := cause(c); cs != "" && cls == "out-of-memory" {
-			sig = cs + ":oom"
+			sig = cs
 		} else if cls != "out-of-memory" {
 			sig += ":" + strings.ReplaceAll(normalize(firstFatal(o.Stderr)), " ", "-")
 		}
@@ -213,7 +224,7 @@ func judge(c *Case, o Outcome, alone bool) string {
 		if s.st.Alloc > allocBound(n) {
 			sig := "C03:alloc-disproportionate:" + s.name
 			if cs := cause(c); cs != "" {
-				sig = cs + ":alloc"
+				sig = cs
 			}
 			violate(c, "impl-violation", sig, fmt.Sprintf("%s allocated %d bytes for a %d-byte input (bound %d)", s.name, s.st.Alloc, n, allocBound(n)), allocBound(n), s.st.Alloc)
 			verdict = "over-alloc"
@@ -225,7 +236,7 @@ func judge(c *Case, o Outcome, alone bool) string {
 			}
 			sig := "C03:time-disproportionate:" + s.name
 			if cs := cause(c); cs != "" {
-				sig = cs + ":time"
+				sig = cs
 			}
 			violate(c, "impl-violation", sig, fmt.Sprintf("%s took %s for a %d-byte input (bound %s) when run alone", s.name, time.Duration(s.st.Ns), n, timeBound(n)), timeBound(n).String(), time.Duration(s.st.Ns).String())
 			verdict = "slow"
@@ -471,6 +482,7 @@ func main() {
 		return
 	}
 	want := func(p string) bool { return *only == "" || *only == p }
+	probeVariant()
 	if want("corpus") {
 		cs := loadCorpus()
 		runCases(cs, *par)
